@@ -219,7 +219,7 @@ def run(tier, seed, ck=None, only=None, on_fail=None):
     r = R_.get('op1_3')
     rets = [p for p in r.paths if p['end'] == 'return'] if r is not None else []
     if r is not None:
-        ck.ground('C02.Negate.shape', 'two returning paths (identity test), no panic', len(rets) == 2 and len(r.paths) == 2)
+        ck.ground('C02.Negate.shape', 'every path returns (%d: a branch on the identity test, or a branch-free selection), no panic' % len(rets), len(rets) >= 1 and len(rets) == len(r.paths))
     for p in rets:
         o = p['obs']
         low = PolyLower(r)
